@@ -46,7 +46,7 @@ def main():
                 needs = "see notes.md"
                 if os.path.exists(notes):
                     shutil.copy(notes, d + "/notes.md")
-                meta = {"id": "%s-%d" % (pid, n + OFF), "breaks_property": pid, "round": 1 + OFF // 2,
+                meta = {"id": "%s-%d" % (pid, n + OFF), "breaks_property": pid, "round": int(os.environ.get("SEED_ROUND", 1 + OFF // 2)),
                         "needs_to_manifest": needs,
                         "origin": "later round: independent sub-agent given the property text, a scratch worktree and a one-line list of the round-1 changes to avoid",
                         "verified": {"how": "tools_round2.py in a scratch git worktree of /repo",
